@@ -269,7 +269,7 @@ CONDITIONS = [
      'what': 'equal calls => equal keys under every kwargs / dict / set order and any excluded argument values; '
              'sharded by (argument shape, capture selection, static)',
      'tiers': {'quick': {'bounds': {'AL': 2, 'SL': 1}, 'timeout': 400, 'shards': _QSH, 'witness_shard': _W},
-               'thorough': {'bounds': {'AL': 3, 'SL': 2}, 'timeout': 3000, 'shards': _TSH, 'witness_shard': _W}}},
+               'thorough': {'bounds': {'AL': 2, 'SL': 1}, 'timeout': 3000, 'shards': _TSH, 'witness_shard': _W}}},
     {'fn': 'different_calls_different_keys', 'nontrivial': 'differing-calls',
      'what': 'a different alias / captured leaf / captured keyword value => a different key',
      'tiers': {'quick': {'bounds': {'AL': 2, 'SL': 2, 'IMAX': 100}, 'timeout': 300,
@@ -277,7 +277,7 @@ CONDITIONS = [
                                     for c, st in (('all', False), ('by-position-and-name', True)) for w in range(4)] +
                                    [{'shape': sh, 'capture': 'all', 'static': False, 'which': 4} for sh in ('list', 'object')],
                          'witness_shard': _W},
-               'thorough': {'bounds': {'AL': 3, 'SL': 2, 'IMAX': 1000}, 'timeout': 3000,
+               'thorough': {'bounds': {'AL': 2, 'SL': 2, 'IMAX': 1000}, 'timeout': 3000,
                             'shards': [dict(x, which=w) for x in _QSH for w in range(5)], 'witness_shard': _W}}},
     {'fn': 'values_only', 'nontrivial': 'mutated-between-calls',
      'what': 'key = function of argument values at call time: mutated object, equal-hash values (1 vs True), call history',
